@@ -75,7 +75,7 @@ func classifyAuthErr(e string) string {
 		return "listed"
 	case strings.Contains(e, "not enough valid signatures"):
 		return "threshold"
-	case strings.Contains(e, "incorrect signature"), strings.Contains(e, "invalid key type"):
+	case strings.Contains(e, "incorrect signature"), strings.Contains(e, "invalid key type"), strings.Contains(e, "error validating signature"):
 		return "sig"
 	case strings.Contains(e, "acl says no"), strings.Contains(e, "empty response"), strings.Contains(e, "proto:"), strings.Contains(e, "unexpected EOF"), strings.Contains(e, "cannot parse"):
 		return "acl"
@@ -182,6 +182,13 @@ func (e *authEx) Exec(op string) string {
 	if len(args) >= expected && (len(args)-expected)%2 == 0 && len(args) > expected {
 		n := (len(args) - expected) / 2
 		realKeys = args[expected : expected+n]
+	}
+	if route == "legacy" {
+		// args = plain arguments, keys, signatures
+		realKeys = nil
+		if n := (len(args) - (argc - 1)) / 2; n > 0 {
+			realKeys = args[argc-1 : argc-1+n]
+		}
 	}
 	entry := &simpeer.ACLEntry{}
 	ap := strings.Split(acl, ":")
@@ -290,7 +297,7 @@ func (e *authEx) Exec(op string) string {
 		} else if b.Event != nil {
 			result = string(b.Event.Events[1].GetResult())
 		}
-	case "nb":
+	case "nb", "legacy":
 		r := e.c.Invoke(wd.Client.Creator, simpeer.NewTxID(), fn, args...)
 		if !r.OK() {
 			errText = r.Resp.Message
@@ -313,7 +320,7 @@ func (e *authEx) Exec(op string) string {
 	}
 	// who acted? whoami returns the address; echo does not, so read the authenticated sender's mark
 	who := strings.Trim(result, "\"")
-	if !strings.HasPrefix(fn, "whoami") && !strings.HasPrefix(fn, "whoAmI") {
+	if !strings.HasPrefix(fn, "whoami") && !strings.HasPrefix(fn, "whoAmI") && !strings.HasPrefix(fn, "legacy") {
 		who = ""
 	}
 	for sym, raw := range addrPool {
